@@ -52,6 +52,13 @@ def check(ctx: Ctx) -> None:
     # commit-time existence check dominates the manifest that would reference it
     from .c11 import appended_files_must_exist
     appended_files_must_exist(ctx, "C06.R11")
+    from .c20 import r10_listing_exhaustive
+    r10_listing_exhaustive(ctx, "C06.R12")
+    from .c20 import r11_utc_ages
+    r11_utc_ages(ctx, "C06.R13")
+    # an ambiguous commit keeps its files AND their markers: the pointer write may still land
+    from .c04 import r3 as c04_r3
+    ctx.shared(c04_r3, "C04.R3", "C06.R14", "nothing of an ambiguous commit is deleted or un-protected")
 
 
 def data_writes_protected(ctx: Ctx, rid: str) -> None:
